@@ -119,9 +119,8 @@ class Rule:
                             try:
                                 datum = v(datum)
                                 break
-                            except TypeError:
+                            except (TypeError, ValueError):
                                 pass
-                    datum_path = DataPath(*datum_path)
                     set_datum(data_copy, datum_path, datum)
 
         return RuleTest(self, data_copy)
